@@ -125,6 +125,7 @@ type Contract struct {
 
 type LoopSpec struct {
 	Exit  []*Clause  // proved on every edge leaving the loop (one obligation per exit edge), then assumed
+	ExitGhost []GhostDef // `loop k: exit ghost x = e`: the function-level ghost x takes the value e on every exit edge
 	Ghost []GhostDef // snapshots taken at the loop head (after havoc), visible in lemma clauses
 	Lemma []*Clause // proved (then assumed) at every back edge before the invariants
 	Inv  []*Clause
@@ -784,6 +785,19 @@ func (cs *Contracts) loadFile(file string) error {
 				}
 				ls.Inv = append(ls.Inv, c)
 			case "exit":
+				if strings.HasPrefix(rest2, "ghost ") {
+					gs := strings.TrimSpace(rest2[6:])
+					i := strings.Index(gs, "=")
+					if i < 0 {
+						return fail(fmt.Errorf("ghost needs name = expr"))
+					}
+					ge, err := ParseExpr(gs[i+1:])
+					if err != nil {
+						return fail(err)
+					}
+					ls.ExitGhost = append(ls.ExitGhost, GhostDef{Name: strings.TrimSpace(gs[:i]), Expr: ge})
+					break
+				}
 				c, err := mk("exit", rest2, k)
 				if err != nil {
 					return err
